@@ -54,13 +54,16 @@ def class_is_sensitive(cls):
 
 
 class Canon(object):
-    def __init__(self, opts, tainted_or_unbound):
+    def __init__(self, opts, tainted_or_unbound, doc_used=None):
         self.o = opts
+        self.doc_used = doc_used
         self.unbound_names = tainted_or_unbound     # ids of Name nodes that resolve to an unbound (builtin) name
         self.placeholder = any(opts.get(k) for k in ('remove_pass', 'remove_asserts', 'remove_debug', 'remove_literal_statements', 'remove_explicit_return_none'))
 
     def run(self, tree):
-        self.keep_module_doc = uses_doc_name(tree)
+        # "uses the __doc__ name" is a fact about the program that was handed to the minifier: the use may sit in an annotation
+        # that another enabled option removes afterwards, so the caller passes the input's answer for the output side too
+        self.keep_module_doc = uses_doc_name(tree) if self.doc_used is None else self.doc_used
         tree.body = self.stmts(tree.body, tree, None)
         return tree
 
@@ -262,7 +265,7 @@ class Folder(ast.NodeTransformer):
         return None
 
 
-def canon(tree, opts):
+def canon(tree, opts, doc_used=None):
     tree = copy.deepcopy(tree)
     res = scopes.Resolver(tree)
     unbound = set()
@@ -270,4 +273,4 @@ def canon(tree, opts):
         for (node, slot, name, ctx) in s.occ:
             if ctx == 'load' and res.keys[(id(node), slot)] == [('U', name)]:
                 unbound.add(id(node))
-    return Canon(opts, unbound).run(tree)
+    return Canon(opts, unbound, doc_used).run(tree)
